@@ -523,7 +523,7 @@ def c13(tier):
                                  {"VARIANT": 2, "COUNTER": c, "POSN": p, "REQ": rq, "INFOLEN": 3 if (rq + p) % 2 else 0}, src,
                                  "inductive step of hkdf_expand", tier))
     # requests of 256 bytes and more (8-bit length arithmetic), fold encoding + z3
-    for (c, p, rq) in ((2, 7, 256), (100, 31, 260), (254, 22, 257)) + (((2, 0, 512), (3, 16, 1024)) if tier != "quick" else ()):
+    for (c, p, rq) in ((2, 7, 256), (100, 31, 260), (254, 22, 257)) + (((2, 0, 512),) if tier != "quick" else ()):
         jobs.append(cut2fold("hkdf-step-n%d-posn%d-req%d" % (c, p, rq), "c13_hkdf.c", {"VARIANT": 2, "COUNTER": c, "POSN": p, "REQ": rq, "INFOLEN": 3}, src,
                              "inductive step of hkdf_expand, long request", tier, unwind=rq + 80, timeout=1500))
     jobs += api_probes("hkdf", 4, LIBC + ABSFOLD + CLEAN + HMAC_SRC + S("tinyjambu-hkdf.c"),
